@@ -59,6 +59,7 @@ pub fn gen_config(profile: &str, rng: &mut Rng, tier: Tier) -> Config {
 		w_chan_fail: pick(rng, &[0, 1, 4]),
 		w_node_fail: pick(rng, &[0, 1, 3]),
 		w_roundtrip: pick(rng, &[0, 2, 5]),
+		w_rgs: if quick { pick(rng, &[0, 0, 1, 3]) } else { pick(rng, &[0, 2, 5]) },
 		lookup_pct: pick(rng, &[0, 30, 70, 100]),
 		async_pct: if async_on { pick(rng, &[15, 40, 80]) } else { 0 },
 		bad_pct: pick(rng, &[5, 20, 40]),
@@ -87,7 +88,7 @@ pub struct Sched {
 }
 
 fn is_message(a: &Action) -> bool {
-	matches!(a, Action::ChanAnn { .. } | Action::ChanUpd { .. } | Action::NodeAnn { .. })
+	matches!(a, Action::ChanAnn { .. } | Action::ChanUpd { .. } | Action::NodeAnn { .. } | Action::Rgs { .. })
 }
 
 impl Sched {
@@ -151,6 +152,7 @@ impl Sched {
 			gc.w_chan_fail,
 			gc.w_node_fail,
 			gc.w_roundtrip,
+			gc.w_rgs,
 		];
 		Some(match rng.weighted(&w) {
 			0 => self.gen_ca(wd, rng),
@@ -204,8 +206,82 @@ impl Sched {
 				permanent: rng.chance(75, 100),
 				via_update: rng.coin(),
 			},
-			_ => Action::RoundTrip { g: 0, adopt: rng.chance(35, 100) },
+			10 => Action::RoundTrip { g: 0, adopt: rng.chance(35, 100) },
+			_ => self.gen_rgs(wd, rng),
 		})
+	}
+
+	fn gen_rgs(&mut self, wd: &World, rng: &mut Rng) -> Action {
+		let gut = &wd.gs[0];
+		let nch = wd.uni.chans.len();
+		let now = wd.now as u32;
+		let version = if rng.coin() { 1 } else { 2 };
+		let latest_seen = match rng.below(10) {
+			0 => now.saturating_sub(rng.range(14 * 86400 + 1, 20 * 86400) as u32),
+			1 | 2 => now.saturating_sub(rng.range(6 * 86400, 8 * 86400) as u32),
+			3 => now.saturating_add(rng.range(0, 86400) as u32),
+			_ => now.saturating_sub(rng.range(0, 5 * 86400) as u32),
+		};
+		let mut anns = Vec::new();
+		let mut scids: Vec<ScidRef> = Vec::new();
+		for _ in 0..rng.range(0, 5) {
+			let (scid, a, b) = if rng.chance(90, 100) {
+				let c = rng.below(nch as u64) as usize;
+				let (mut a, mut b) = (wd.uni.chans[c].a, wd.uni.chans[c].b);
+				if rng.chance(8, 100) {
+					a = rng.below(wd.uni.total_nodes() as u64) as usize;
+					b = (a + 1 + rng.below(wd.uni.total_nodes() as u64 - 1) as usize) % wd.uni.total_nodes();
+				}
+				(ScidRef::Chan(c), a, b)
+			} else {
+				let a = rng.below(wd.uni.total_nodes() as u64) as usize;
+				let b = (a + 1 + rng.below(wd.uni.total_nodes() as u64 - 1) as usize) % wd.uni.total_nodes();
+				(ScidRef::Phantom(rng.below(N_PHANTOM as u64) as u8), a, b)
+			};
+			let funding = match (scid, rng.below(3)) {
+				(ScidRef::Chan(c), 0) => Some(wd.uni.chans[c].capacity_sats),
+				_ => None,
+			};
+			scids.push(scid);
+			anns.push(RgsAnnSpec { scid, a, b, sorted: !rng.chance(3, 100), funding });
+		}
+		for s in gut.model.chan_scids() {
+			if let Some(c) = wd.uni.chan_by_scid(s) {
+				scids.push(ScidRef::Chan(c));
+			}
+		}
+		if scids.is_empty() || rng.chance(10, 100) {
+			scids.push(ScidRef::Chan(rng.below(nch as u64) as usize));
+		}
+		let mut upds = Vec::new();
+		for _ in 0..rng.range(1, 6) {
+			let scid = *rng.pick(&scids);
+			let cap_m = match scid {
+				ScidRef::Chan(c) => wd.uni.chans[c].capacity_sats * 1000,
+				_ => 100_000_000,
+			};
+			upds.push(RgsUpdSpec {
+				scid,
+				dir: rng.below(2) as u8,
+				disabled: rng.chance(20, 100),
+				incremental: rng.chance(40, 100),
+				cltv: if rng.coin() { Some(rng.range(6, 400) as u16) } else { None },
+				hmin: if rng.coin() { Some(rng.range(0, 5000)) } else { None },
+				base: Some(self.uid()),
+				prop: if rng.coin() { Some(rng.below(5000) as u32) } else { None },
+				hmax: match rng.below(6) {
+					0 | 1 => None,
+					2 => Some(cap_m),
+					3 => Some(cap_m + rng.range(1, 1_000_000)),
+					_ => Some(rng.range(1, cap_m)),
+				},
+			});
+		}
+		let defaults = (rng.range(6, 200) as u16, rng.range(0, 2000), self.uid(), rng.below(3000) as u32, rng.range(1_000_000, 5_000_000_000));
+		Action::Rgs {
+			g: 0,
+			snap: RgsSpec { version, chain_ok: !rng.chance(4, 100), latest_seen, with_time: rng.chance(60, 100), anns, upds, defaults },
+		}
 	}
 
 	fn gen_utxo(&self, wd: &World, rng: &mut Rng) -> UtxoPlan {
